@@ -194,8 +194,11 @@ func (Section) Generate(seed uint64, tier string) engine.Plan {
 		for oi := 0; oi < nops; oi++ {
 			var op SecOp
 			k := r.Intn(10)
-			if w.Kind == "at" {
-				k = 0
+			if w.Kind == "at" && k > 8 {
+				k = 0 // no Size() on an AtToWriter
+			}
+			if w.Kind == "at" && !r.Chance(1, 3) {
+				k = 0 // mostly plain Writes: it is handed out as an io.Writer
 			} else if cur >= n && n > 0 && r.Chance(2, 3) {
 				// the cursor sits at/after the end: usually go back inside, otherwise
 				// the rest of the history is one refused write after another
@@ -274,7 +277,7 @@ func (Section) Generate(seed uint64, tier string) engine.Plan {
 				default:
 					op.Rel = -n
 				}
-				if w.N == secNoEnd {
+				if w.N == secNoEnd || w.Kind == "at" {
 					// keep targets well inside int64: SeekEnd of an endless section is
 					// outside "io.Seeker semantics relative to the section".
 					if op.Whence == 2 {
@@ -472,6 +475,14 @@ func (Section) Execute(pl engine.Plan, c *engine.RunCtx) *engine.Failure {
 				wr = iohelper.AtToWriter(under, w.Off)
 				m.limit = int64(^uint64(0) >> 1)
 				m.endless = true
+				// "behaves as a section from off": if what it hands out IS a section
+				// writer (it is declared as io.Writer), its Seek/WriteAt are held to
+				// the same model; if a future version returns something else, those
+				// operations are skipped
+				sw, _ = wr.(*iohelper.SectionWriter)
+				if sw != nil {
+					st.Inc("probe.C18.attowriter_used_as_a_section")
+				}
 			} else {
 				sw = iohelper.NewSectionWriter(under, w.Off, w.N)
 				wr = sw
@@ -489,6 +500,12 @@ func (Section) Execute(pl engine.Plan, c *engine.RunCtx) *engine.Failure {
 					return
 				}
 				step := wi*1000 + oi
+				if sw == nil && op.Op != "write" {
+					continue // not a section writer: only Write is available
+				}
+				if w.Kind == "at" && op.Op == "size" {
+					continue
+				}
 				c.Status.SetStep(uint64(step), 1)
 				st.Inc("op." + op.Op)
 				var arm simio.Arm
